@@ -1,3 +1,256 @@
+/-
+C12 — a rendered form, submitted unchanged, posts the element's own flat pairs.
+
+Theorems about the model of the transforms (`Flatland/Markup/Transform.lean`) and the browser
+rule `submitted` (`Flatland/C12.lean`), for every bind, every context in which name/value
+generation is enabled, and every literal.
+-/
 import Flatland.C12
+import Flatland.Spec.C12
+import Proofs.Lemmas.C12Transforms
 namespace Flatland.C12.Proofs
+open Flatland.Markup Flatland.C12 Flatland.C19.Proofs
+
+/-! ### naming -/
+
+theorem foldl_join (n : Str) (rest : List Str) :
+    rest.foldl (fun acc x => acc ++ '_' :: x) n = n ++ (rest.map (fun x => '_' :: x)).flatten := by
+  induction rest generalizing n with
+  | nil => simp
+  | cons r rs ih => simp [List.foldl_cons, ih, List.append_assoc]
+
+/-- the model's name function is the documented one -/
+theorem flatName_spec (path : List (Option Str)) : flatName path = Spec.flattenedName path := by
+  unfold flatName Spec.flattenedName
+  cases path.filterMap id with
+  | nil => rfl
+  | cons n rest => exact foldl_join n rest
+
+/-- anonymous path elements (list members, Array members, an unnamed root) do not show -/
+theorem flatName_skip_none (pre post : List (Option Str)) :
+    flatName (pre ++ none :: post) = flatName (pre ++ post) := by
+  simp [flatName, List.filterMap_append]
+
+/-- a named child of a named parent is `parent_child` — also when the names contain the separator -/
+theorem flatName_child (pre : List (Option Str)) (n : Str) (h : pre.filterMap id ≠ []) :
+    flatName (pre ++ [some n]) = flatName pre ++ '_' :: n := by
+  rw [flatName_spec, flatName_spec]
+  unfold Spec.flattenedName
+  rw [List.filterMap_append]
+  cases hp : pre.filterMap id with
+  | nil => exact absurd hp h
+  | cons a as => simp [List.append_assoc]
+
+/-! ### the six transforms in sequence -/
+
+theorem transform_steps {T : Tables} {tag : Str} {bnd : Option Bind} {st st6 : TState}
+    (h : transform T tag bnd st = .ok st6) :
+    ∃ s1 s2 s3 s4 s5, transformName T tag bnd st = .ok s1 ∧ transformValue T tag bnd s1 = .ok s2 ∧
+      transformDomid T tag bnd s2 = .ok s3 ∧ transformFor T tag bnd s3 = .ok s4 ∧
+      transformTabindex T tag bnd s4 = .ok s5 ∧ transformFilters T tag bnd s5 = .ok st6 := by
+  unfold transform at h
+  simp only [bind, Except.bind] at h
+  cases h1 : transformName T tag bnd st with
+  | error e => rw [h1] at h; simp at h
+  | ok s1 =>
+    rw [h1] at h; simp only at h
+    cases h2 : transformValue T tag bnd s1 with
+    | error e => rw [h2] at h; simp at h
+    | ok s2 =>
+      rw [h2] at h; simp only at h
+      cases h3 : transformDomid T tag bnd s2 with
+      | error e => rw [h3] at h; simp at h
+      | ok s3 =>
+        rw [h3] at h; simp only at h
+        cases h4 : transformFor T tag bnd s3 with
+        | error e => rw [h4] at h; simp at h
+        | ok s4 =>
+          rw [h4] at h; simp only at h
+          cases h5 : transformTabindex T tag bnd s4 with
+          | error e => rw [h5] at h; simp at h
+          | ok s5 =>
+            rw [h5] at h; simp only at h
+            exact ⟨s1, s2, s3, s4, s5, rfl, h2, h3, h4, h5, h⟩
+
+/-- the attribute-dict form of the browser rule (no ordering involved) -/
+def submittedD (tag : Str) (attrs : Attrs) (text : Str) : Option (Str × Str) :=
+  submitted tag (strAttrs attrs) text
+
+/-- hypotheses shared by the control theorems: the tag carries no option, no `name`, no `value`;
+    name/value generation is enabled in the context (true of a fresh generator: `fresh_enabled`) -/
+structure Plain (T : Tables) (st : TState) : Prop where
+  nameOn : Enabled T st.ctx "auto_name".toList
+  valueOn : Enabled T st.ctx "auto_value".toList
+  noNameOpt : Dict.get? st.attrs "auto_name".toList = none
+  noValueOpt : Dict.get? st.attrs "auto_value".toList = none
+  noName : Dict.get? st.attrs sName = none
+
+/-- what the transforms leave in the attribute dict of a text-like `<input>` -/
+theorem input_textlike_attrs (T : Tables) (b : Bind) (st st6 : TState) (hp : Plain T st)
+    (hnoval : Dict.get? st.attrs sValue = none)
+    (hty : textLike ((Dict.get? st.attrs sType).getD (.text [])) = true)
+    (hname : b.flatName ≠ [])
+    (hT1 : T.autoTag sName sInput = true) (hT2 : T.autoTag sValue sInput = true)
+    (h : transform T sInput (some b) st = .ok st6) :
+    Dict.get? st6.attrs sName = some (.text b.flatName) ∧ Dict.get? st6.attrs sValue = some (.text b.u) ∧
+    Dict.get? st6.attrs sType = Dict.get? st.attrs sType := by
+  obtain ⟨s1, s2, s3, s4, s5, h1, h2, h3, h4, h5, h6⟩ := transform_steps h
+  rw [transformName_on T sInput b st hp.nameOn hp.noNameOpt hname hp.noName hT1] at h1
+  simp only [Except.ok.injEq] at h1
+  subst h1
+  have n1 : "auto_value".toList ≠ sName := by decide
+  have n2 : sType ≠ sName := by decide
+  have n3 : sValue ≠ sName := by decide
+  have hv := transformValue_textlike T b ⟨Dict.set st.attrs sName (.text b.flatName), st.contents, st.ctx⟩ hp.valueOn
+      (by simp only; rw [Dict.get?_set_other _ _ _ _ n1]; exact hp.noValueOpt)
+      (by simp only; rw [Dict.get?_set_other _ _ _ _ n2]; exact hty)
+      (by simp only; rw [Dict.get?_set_other _ _ _ _ n3]; exact hnoval) hT2
+  rw [hv] at h2
+  simp only [Except.ok.injEq] at h2
+  subst h2
+  have hl : sInput ≠ sLabel := by decide
+  have f1 := (later_frame sName (by decide) hl h3 h4 h5 h6).1
+  have f2 := (later_frame sValue (by decide) hl h3 h4 h5 h6).1
+  have f3 := (later_frame sType (by decide) hl h3 h4 h5 h6).1
+  simp only at f1 f2 f3
+  have m1 : sName ≠ sValue := by decide
+  have m2 : sType ≠ sValue := by decide
+  refine ⟨?_, ?_, ?_⟩
+  · rw [f1, Dict.get?_set_other _ _ _ _ m1, Dict.get?_set_self]
+  · rw [f2, Dict.get?_set_self]
+  · rw [f3, Dict.get?_set_other _ _ _ _ m2, Dict.get?_set_other _ _ _ _ n2]
+
+end Flatland.C12.Proofs
+
+namespace Flatland.C12.Proofs
+open Flatland.Markup Flatland.C12 Flatland.C19.Proofs
+
+/-! ### from the attribute dict to what the browser reads -/
+
+theorem attr?_strAttrs (attrs : Attrs) (hnd : (Dict.keys attrs).Nodup) (k : Str) :
+    attr? (strAttrs attrs) k = (Dict.get? attrs k).bind Val.str? := by
+  induction attrs with
+  | nil => rfl
+  | cons p rest ih =>
+    obtain ⟨k0, v0⟩ := p
+    simp only [Dict.keys, List.map_cons, List.nodup_cons] at hnd
+    have ih' := ih hnd.2
+    by_cases h0 : k0 = k
+    · subst h0
+      simp only [Dict.get?_cons, if_true, Option.bind_some]
+      cases hs : v0.str? with
+      | some s => simp [strAttrs, hs, attr?]
+      | none =>
+        simp only [strAttrs, List.filterMap_cons, hs, Option.map_none]
+        have : Dict.get? rest k0 = none := (Dict.get?_eq_none_iff rest k0).mpr hnd.1
+        rw [show attr? (List.filterMap (fun kv => Option.map (fun s => (kv.1, s)) kv.2.str?) rest) k0 =
+          attr? (strAttrs rest) k0 from rfl, ih', this]
+        rfl
+    · simp only [Dict.get?_cons, h0, if_false]
+      cases hs : v0.str? with
+      | some s => simp [strAttrs, hs, attr?, h0]; exact ih'
+      | none => simp only [strAttrs, List.filterMap_cons, hs, Option.map_none]; exact ih'
+
+theorem transform_nodup {T : Tables} {tag : Str} {bnd : Option Bind} {st st6 : TState}
+    (hnd : (Dict.keys st.attrs).Nodup) (h : transform T tag bnd st = .ok st6) :
+    (Dict.keys st6.attrs).Nodup := by
+  obtain ⟨s1, s2, s3, s4, s5, h1, h2, h3, h4, h5, h6⟩ := transform_steps h
+  have n1 := (transformName_reach h1).nodup (Dict.nodup_erase _ _ hnd)
+  have n2 := (transformValue_reach h2).nodup (Dict.nodup_erase _ _ n1)
+  have n3 := (transformDomid_reach h3).nodup (Dict.nodup_erase _ _ n2)
+  have n4 := (transformFor_reach h4).nodup (Dict.nodup_erase _ _ n3)
+  have n5 := (transformTabindex_reach h5).nodup (Dict.nodup_erase _ _ n4)
+  exact (transformFilters_reach h6).nodup (Dict.nodup_erase _ _ n5)
+
+/-- the `type` a browser sees is neither checkbox nor radio (types are ASCII case-insensitive there) -/
+def browserTextLike (attrs : Attrs) : Prop :=
+  let ty := asciiLower (((Dict.get? attrs sType).bind Val.str?).getD "text".toList)
+  ty ≠ "checkbox".toList ∧ ty ≠ "radio".toList
+
+/-- POSTS FLAT PAIR — text-like `<input>`: after the transforms, the browser rule posts exactly
+    `(flattened name, u)`. -/
+theorem posts_flat_pair_input (T : Tables) (b : Bind) (st st6 : TState) (text : Str) (hp : Plain T st)
+    (hnd : (Dict.keys st.attrs).Nodup)
+    (hnoval : Dict.get? st.attrs sValue = none)
+    (hty : textLike ((Dict.get? st.attrs sType).getD (.text [])) = true)
+    (hbr : browserTextLike st.attrs)
+    (hname : b.flatName ≠ [])
+    (hT1 : T.autoTag sName sInput = true) (hT2 : T.autoTag sValue sInput = true)
+    (h : transform T sInput (some b) st = .ok st6) :
+    Spec.PostsFlatPair (submittedD sInput st6.attrs text) b := by
+  obtain ⟨a1, a2, a3⟩ := input_textlike_attrs T b st st6 hp hnoval hty hname hT1 hT2 h
+  have hn6 := transform_nodup hnd h
+  have hne : b.flatName.isEmpty = false := by simpa using hname
+  unfold Spec.PostsFlatPair submittedD submitted
+  simp only [attr?_strAttrs _ hn6, a1, a2, a3, Option.bind_some, Val.str?, hne, Bool.false_eq_true, if_false, if_true]
+  obtain ⟨b1, b2⟩ := hbr
+  rw [decide_eq_false b1, decide_eq_false b2]
+  simp only [Bool.or_self, Bool.false_eq_true, if_false, Option.getD_some]
+
+/-- POSTS FLAT PAIR — `<button>` (value attribute) -/
+theorem posts_flat_pair_button (T : Tables) (b : Bind) (st st6 : TState) (text : Str) (hp : Plain T st)
+    (hnd : (Dict.keys st.attrs).Nodup) (hnoval : Dict.get? st.attrs sValue = none)
+    (hname : b.flatName ≠ [])
+    (hT1 : T.autoTag sName "button".toList = true) (hT2 : T.autoTag sValue "button".toList = true)
+    (h : transform T "button".toList (some b) st = .ok st6) :
+    Spec.PostsFlatPair (submittedD "button".toList st6.attrs text) b := by
+  obtain ⟨s1, s2, s3, s4, s5, h1, h2, h3, h4, h5, h6⟩ := transform_steps h
+  rw [transformName_on T _ b st hp.nameOn hp.noNameOpt hname hp.noName hT1] at h1
+  simp only [Except.ok.injEq] at h1
+  subst h1
+  have n1 : "auto_value".toList ≠ sName := by decide
+  have n3 : sValue ≠ sName := by decide
+  have hv := transformValue_plain T "button".toList b ⟨Dict.set st.attrs sName (.text b.flatName), st.contents, st.ctx⟩
+      hp.valueOn (by simp only; rw [Dict.get?_set_other _ _ _ _ n1]; exact hp.noValueOpt)
+      (by decide) (by decide) (by decide)
+      (by simp only; rw [Dict.get?_set_other _ _ _ _ n3]; exact hnoval) hT2
+  rw [hv] at h2
+  simp only [Except.ok.injEq] at h2
+  subst h2
+  have hl : "button".toList ≠ sLabel := by decide
+  have f1 := (later_frame sName (by decide) hl h3 h4 h5 h6).1
+  have f2 := (later_frame sValue (by decide) hl h3 h4 h5 h6).1
+  simp only at f1 f2
+  have m1 : sName ≠ sValue := by decide
+  rw [Dict.get?_set_other _ _ _ _ m1, Dict.get?_set_self] at f1
+  rw [Dict.get?_set_self] at f2
+  have hn6 := transform_nodup hnd h
+  have hne : b.flatName.isEmpty = false := by simpa using hname
+  have e1 : "button".toList ≠ sInput := by decide
+  have e2 : "button".toList ≠ sTextarea := by decide
+  unfold Spec.PostsFlatPair submittedD submitted
+  simp only [attr?_strAttrs _ hn6, f1, f2, Option.bind_some, Val.str?, hne, Bool.false_eq_true, if_false, e1, e2,
+    if_true, Option.getD_some]
+
+/-- POSTS FLAT PAIR — `<textarea>`: the contents are the escaped text, which a browser reads back
+    as `u` (C11 `decodeRefs_escape`); stated on the contents string -/
+theorem posts_flat_pair_textarea (T : Tables) (b : Bind) (st st6 : TState) (hp : Plain T st)
+    (hnd : (Dict.keys st.attrs).Nodup) (hc : st.contents = none)
+    (hname : b.flatName ≠ [])
+    (hT1 : T.autoTag sName sTextarea = true) (hT2 : T.autoTag sValue sTextarea = true)
+    (h : transform T sTextarea (some b) st = .ok st6) :
+    st6.contents = some (.markup (Flatland.C11.markupEscape T.textChain b.u)) ∧
+    ∀ text, submittedD sTextarea st6.attrs text = some (b.flatName, text) := by
+  obtain ⟨s1, s2, s3, s4, s5, h1, h2, h3, h4, h5, h6⟩ := transform_steps h
+  rw [transformName_on T _ b st hp.nameOn hp.noNameOpt hname hp.noName hT1] at h1
+  simp only [Except.ok.injEq] at h1
+  subst h1
+  have n1 : "auto_value".toList ≠ sName := by decide
+  have hv := transformValue_textarea T b ⟨Dict.set st.attrs sName (.text b.flatName), st.contents, st.ctx⟩
+      hp.valueOn (by simp only; rw [Dict.get?_set_other _ _ _ _ n1]; exact hp.noValueOpt) hc hT2
+  rw [hv] at h2
+  simp only [Except.ok.injEq] at h2
+  subst h2
+  have hl : sTextarea ≠ sLabel := by decide
+  obtain ⟨f1, c1⟩ := later_frame sName (by decide) hl h3 h4 h5 h6
+  simp only at f1 c1
+  rw [Dict.get?_set_self] at f1
+  refine ⟨c1, ?_⟩
+  intro text
+  have hn6 := transform_nodup hnd h
+  have hne : b.flatName.isEmpty = false := by simpa using hname
+  have e1 : sTextarea ≠ sInput := by decide
+  unfold submittedD submitted
+  simp only [attr?_strAttrs _ hn6, f1, Option.bind_some, Val.str?, hne, Bool.false_eq_true, if_false, e1, if_true]
+
 end Flatland.C12.Proofs
